@@ -403,9 +403,9 @@ const controlTemplate = `
 {{- /* Mandatory fields */ -}}
 Architecture: {{.Info.Arch}}
 Description: {{multiline .Info.Description}}
-Maintainer: {{.Info.Maintainer}}
+Maintainer: {{multiline .Info.Maintainer}}
 Package: {{.Info.Name}}
-Priority: {{.Info.Priority}}
+Priority: {{multiline .Info.Priority}}
 Version: {{ if .Info.Epoch}}{{ .Info.Epoch }}:{{ end }}{{.Info.Version}}
          {{- if .Info.Prerelease}}~{{ .Info.Prerelease }}{{- end }}
          {{- if .Info.VersionMetadata}}+{{ .Info.VersionMetadata }}{{- end }}
@@ -430,10 +430,10 @@ Depends: {{join .}}
 Essential: yes
 {{- end }}
 {{- if .Info.Homepage}}
-Homepage: {{.Info.Homepage}}
+Homepage: {{multiline .Info.Homepage}}
 {{- end }}
 {{- if .Info.License}}
-License: {{.Info.License}}
+License: {{multiline .Info.License}}
 {{- end }}
 {{- if .InstalledSize }}
 Installed-Size: {{.InstalledSize}}
@@ -451,7 +451,7 @@ Recommends: {{join .}}
 Replaces: {{join .}}
 {{- end }}
 {{- if .Info.Section}}
-Section: {{.Info.Section}}
+Section: {{multiline .Info.Section}}
 {{- end }}
 {{- with .Info.Suggests}}
 Suggests: {{join .}}
@@ -460,11 +460,11 @@ Suggests: {{join .}}
 Tags: {{join .}}
 {{- end }}
 {{- if .Info.Vendor}}
-Vendor: {{.Info.Vendor}}
+Vendor: {{multiline .Info.Vendor}}
 {{- end }}
 {{- range $key, $value := .Info.IPK.Fields }}
 {{- if $value }}
-{{$key}}: {{$value}}
+{{$key}}: {{multiline $value}}
 {{- end }}
 {{- end }}
 `
